@@ -27,6 +27,10 @@ def gen(seed, tier):
         via = rng.choice(["queued", "queued", "adopt-driver", "adopt-driver", "adopt-payload", "adopt-private-loop", "service-pre", "service-late-driver", "service-late-payload"])
         if via.startswith("service"):
             spec["drop_immediately"] = rng.random() < 0.2
+            if rng.random() < 0.3:
+                # declared in a less usual way: plain subclass of a service class, or a subclass
+                # decorated again - with the same or another flavour (the last decoration counts)
+                spec["svc_class"] = rng.choice(["subclass", "redecorated-same", "redecorated-other"])
         else:
             spec["args"] = rng.choice(ARGS)
             spec["kwargs"] = rng.choice(KWARGS)
@@ -168,6 +172,19 @@ def check(h, reason):
                 V("C03/adopt-raised/%s/%s/by-%s/%s" % (fl, d["exc"], byfl, phase), "adopt of %s payload %s by %s raised %s: %s (phase: %s)" % (fl, pid, by, d["exc"], d.get("text"), phase))
         elif d.get("value") is not None:
             V("C03/adopt-returned-value/%s" % fl, "adopt of %s returned %r" % (pid, d.get("value")))
+    # 1b. a service class decorated a second time (a decorated subclass of a service class) creates a
+    #     unit in each decorator's __new__ wrapper; the earlier one is superseded a few lines later.  If
+    #     the accept loop snapshots the registry in between it starts that unit too: a known finding of
+    #     its own (registration in __new__), kept apart from the clauses below.  Without a start in the
+    #     requested flavour nothing is set aside.
+    tainted = sorted({getattr(svc, "pid", None) for svc, unit in h.started_units if getattr(svc, "__service_unit__", None) is not unit} - {None})
+    for pid in tainted:
+        kind = specs.get(pid, {}).get("svc_class") or "?"
+        V("C03/superseded-unit-started/%s" % kind, "service %s of a class decorated twice (%s, requested flavour %s): the unit registered by the base class's decorator was picked up by the accept loop before it was superseded and was started as well; starts %r" % (pid, kind, specs.get(pid, {}).get("flavour"), [x["ctx"] for x in starts.get(pid, [])]))
+    if tainted:
+        # run() of that instance was started a second time / in the base class's runner, which may
+        # well have brought the runtime down: nothing further is attributed in this run
+        return v, ["C03-superseded"], True
     # 2. never duplicated, anywhere in the run
     for pid, ss in sorted(starts.items()):
         allowed = max(1, ncalls.get(pid, 1)) if specs[pid].get("times") else 1
